@@ -180,13 +180,29 @@ fn make_case(r: &mut rand::rngs::StdRng, k: usize) -> Case {
             _ => {}
         }
         let rm = rmin.max(0) as f64 / 1e6;
-        let gap = match r.gen_range(0..5) {
+        // directed family: a small, finer-meshed body entirely inside the safety shell of a big coarse one (and the
+        // reverse vertex-count assignment): the pre-filter's containment case
+        let contained = k % 4 == 1 && rmin > 20_000 && c == 0;
+        if contained {
+            let (big, tiny) = if r.gen_bool(0.5) { (ia, ib) } else { (ib, ia) };
+            scene.boxes[big].h = [0.6, 0.5, 0.7];
+            scene.boxes[tiny].h = [0.004, 0.004, 0.004];
+            let fine_tiny = r.gen_bool(0.7);
+            scene.rich[tiny] = fine_tiny;
+            scene.rich[big] = !fine_tiny;
+        }
+        if contained && k % 8 == 1 {
+            // tight local bounding box: the big body aligned with its own frame, the tiny one hovering inside the shell
+            let (big, tiny) = if scene.boxes[ia].h[0] > 0.1 { (a, b) } else { (b, a) };
+            if big < ENV0 { scene.aligned_pair = Some((big, tiny, rm * 0.3)); }
+        }
+        let gap = if contained { rm * 0.45 } else { match r.gen_range(0..5) {
             0 => -0.004,                 // overlapping
             1 => (rm - 0.005).max(0.002), // inside the safety distance (or just apart for touch-only)
             2 => rm + 0.005,             // just outside
             3 => rm * 0.4 + 0.001,       // well inside
             _ => rm + 0.3,               // far
-        };
+        } };
         scene.place_next(a, b, gap);
         class.push_str(&format!("{}{}:size{}:{};", if c > 0 { "+" } else { "" }, category(&(a.min(b) as u64, a.max(b) as u64)), size,
             if rmin <= -1_000_000 { "never" } else if rmin == 0 { "touch" } else { "distance" }));
